@@ -420,6 +420,10 @@ class ExprMixin(object):
         t = self.eval_merged_bool(s, sub)
         terms.append(t)
         s.assume(t if is_and else z3.Not(t))
+      for c in s.pc:
+        if c.get_id() in s.ax and c.get_id() not in st.ax:
+          st.axiom(c)
+      self.lift_ghost(st, s)
       return [(st, VBool(z3.And(*terms) if is_and else z3.Or(*terms)))]
     def go(s, idx):
       def after(s2, v):
@@ -603,6 +607,7 @@ class ExprMixin(object):
       b = self.eval_merged_bool(s, e.args[1])
       for c, _ in [(c, None) for c in s.pc if c.get_id() in s.ax and c.get_id() not in st.ax]:
         st.axiom(c)
+      self.lift_ghost(st, s)
       return [(st, VBool(z3.Implies(a, b)))]
     # evaluate callee, positional args, keyword args in order
     def after_fn(s, fn):
